@@ -77,7 +77,7 @@ def emit_ops(cb, ops, fresh=None, surface="expr"):
                 with cb.else_():
                     emit_ops(cb, op[3], fresh, surface)
         elif k == "yield":
-            cb.yield_state(S(T.to_pymbolic(op[1])), op[2], T.to_pymbolic(op[3]), op[4])
+            cb.yield_state(S(T.to_pymbolic(op[1])), op[2], S(T.to_pymbolic(op[3])), op[4])
         elif k == "fail":
             cb.fail_step()
         elif k == "switch":
